@@ -182,8 +182,8 @@ def _meta_case(args):
         fails.append((case, what, info))
 
     if mode == "plain":
-        S = R.rand_shape(rng, rng.randint(2, 8))
-        case = {"S": S, "O": R.rand_otree(rng, rng.randint(2, 9), R.shape_leaves(S)), "costs": _biased_costs(rng)}
+        S = R.rand_shape(rng, rng.randint(2, 7))
+        case = {"S": S, "O": R.rand_otree(rng, rng.randint(2, 8), R.shape_leaves(S)), "costs": _biased_costs(rng)}
         v0, s0 = thl_result(case)
         c0 = sorted((canon_plain(x) for x in s0), key=json.dumps)
         # the complete optimal set from the independent dynamic programme (the presentation must not matter,
@@ -285,7 +285,7 @@ def extra(ctx, n=None):
     from .. import core
     rng = ctx.rng
     quick = ctx.quick()
-    n_plain, n_lab, n_ulab = (2000, 240, 2400) if quick else (12000, 1500, 12000)
+    n_plain, n_lab, n_ulab = (1800, 240, 2400) if quick else (12000, 1500, 12000)
     if n:
         n_plain, n_lab, n_ulab = n, n // 8, n // 3
     args = ([(rng.randrange(1 << 62), i, quick, "plain") for i in range(n_plain)]
